@@ -42,7 +42,7 @@ func init() {
 		Header:   "From ZenoV Require Import Lib.Harness Safe.GoOps Safe.Scanners Safe.SafeHarness.\nOpen Scope Z_scope.\n",
 		CaseType: "scase",
 		Footer:   "\nDefinition DIFF := Eval vm_compute in sdiffs cases.\nPrint DIFF.\nDefinition MON := Eval vm_compute in smons cases.\nPrint MON.\n",
-		Rule:     "one case = (function, byte string): hasFileExtension, isLikelyJSON, GetShortID, ExtractURLsFromHeader, extractFromScriptContent (with the JSON decoder's answers on every candidate payload as oracle table), the srcset splitting of HTMLAssets, ina.extractJWPlayerVersion (dead code), and the library models TrimSpace / Split / range-over-string; inputs are structured (URLs, headers, scripts), boundary-dense (lengths around every guard) and malformed (random bytes, invalid UTF-8, Unicode white space); distinct by input text; non-trivial when the function's answer is not the trivial one (true, a non-empty list, an output different from the input, or a panic)",
+		Rule:     "one case = (function, byte string): hasFileExtension, isLikelyJSON, GetShortID, ExtractURLsFromHeader, extractFromScriptContent (with the JSON decoder's answers on every candidate payload as oracle table), srcsetURLs (the srcset splitting helper of HTMLAssets), ina.extractJWPlayerVersion (dead code), and the library models TrimSpace / Split / range-over-string; inputs are structured (URLs, headers, scripts), boundary-dense (lengths around every guard) and malformed (random bytes, invalid UTF-8, Unicode white space); distinct by input text; non-trivial when the function's answer is not the trivial one (true, a non-empty list, an output different from the input, or a panic)",
 		Setup:    func() { config.InitConfig() },
 		Gen:      genScan,
 		Exec:     execScan,
@@ -123,6 +123,9 @@ func genScanInput(r *Rng, fn int) []byte {
 		}
 		if r.Chance(10) {
 			return mutate(r, b, 1, nil)
+		}
+		if r.Chance(30) { // white space around the text (trimmed first since e71ebd9)
+			return []byte(randTokens(r, spaceToks, r.Intn(3)) + string(b) + randTokens(r, spaceToks, r.Intn(3)))
 		}
 		return b
 	case fShortID:
@@ -207,7 +210,10 @@ func genScanInput(r *Rng, fn int) []byte {
 		}
 		return []byte(randTokens(r, toks, r.Intn(8)))
 	case fSrcset:
-		toks := []string{"a.png", "b.jpg 2x", " ", ",", ", ", "  ", "\t", "\n", "1x", "c.gif 100w", ",,", "x y z"}
+		toks := []string{"a.png", "b.jpg 2x", " ", ",", ", ", "  ", "\t", "\n", "\f", "\r", "\v", "1x", "c.gif 100w", ",,", "x y z", "d,e.png", "f.png,", "g.png,,", ",h", "\u00a0", "\u2003", "\xff", "i.png 1x,j.png", "(k, l)"}
+		if r.Chance(15) {
+			return mutate(r, []byte(randTokens(r, toks, 1+r.Intn(6))), 1+r.Intn(2), []string{",", " ", "\t"})
+		}
 		return []byte(randTokens(r, toks, r.Intn(9)))
 	}
 	return nil
@@ -325,17 +331,8 @@ func execScan(in string) Result {
 			}
 			obs, nontrivial = "(OInts "+coqList(pos)+")", n != len(s)
 		case fSrcset:
-			// <img srcset=V> as the only element: HTMLAssets returns exactly the srcset URLs
-			doc := "<html><body><img srcset=\"" + s + "\"></body></html>"
-			u := docURL("http://h.example/p", 200, http.Header{"Content-Type": {"text/html"}}, []byte(doc))
-			item := models.NewItem("i", u, "")
-			assets, err := extractor.HTMLAssets(item)
-			if err != nil {
-				obs = "OErr"
-			} else {
-				l := urlRaws(assets)
-				obs, nontrivial = obsList(l), len(l) > 1
-			}
+			l := extractor.VerifC10SrcsetURLs(s)
+			obs, nontrivial = obsList(l), len(l) > 0
 		}
 	})
 	if panicked {
